@@ -343,3 +343,61 @@ func ZZ_C15_refresh() {
 	}
 	nondet.Reach("C15.refresh.unchanged", err == nil && st.Status.Canary != nil && zzHas(st.Status.Canary.Nodes, "node1"))
 }
+
+// ZZ_C15_restartTotals: "preferring nodes whose daemon pods restarted least" — all daemon pods of
+// a node and all their containers count.  Two valid nodes, one canary node wanted, nothing
+// selected before; node0 holds one or two daemon pods (an older one still terminating, a former
+// canary pod) with one or two containers each, node1 one pod; the pods are listed in either
+// order.  The node whose pods restarted less in total is selected.
+func ZZ_C15_restartTotals() {
+	canary := &datadoghqv1alpha1.ExtendedDaemonSetSpecStrategyCanary{Duration: &metav1.Duration{Duration: time.Hour}}
+	one := intstr.FromInt(1)
+	canary.Replicas = &one
+	ds := zzEDS("ns", "foo", "B", canary)
+	c := fakeapi.New()
+	mkPod := func(name, node string, counts ...int32) *corev1.Pod {
+		p := &corev1.Pod{ObjectMeta: metav1.ObjectMeta{Name: name, Namespace: "ns", Labels: map[string]string{datadoghqv1alpha1.ExtendedDaemonSetNameLabelKey: "foo"}},
+			Spec: corev1.PodSpec{NodeName: node}}
+		for i, n := range counts {
+			p.Status.ContainerStatuses = append(p.Status.ContainerStatuses, corev1.ContainerStatus{Name: "c" + strconv.Itoa(i), RestartCount: n})
+		}
+		return p
+	}
+	a := nondet.Int32("node0.pod.restarts", 0, 4)
+	a2 := nondet.Int32("node0.pod.sidecar.restarts", 0, 4)
+	b := nondet.Int32("node1.pod.restarts", 0, 9)
+	total0 := a + a2
+	pods := []*corev1.Pod{mkPod("pod-node0", "node0", a, a2), mkPod("pod-node1", "node1", b)}
+	if nondet.Bool("node0.secondPod") {
+		x := nondet.Int32("node0.secondPod.restarts", 0, 4)
+		total0 += x
+		second := mkPod("pod2-node0", "node0", x)
+		if nondet.Bool("secondPodListedFirst") {
+			pods = append([]*corev1.Pod{second}, pods...)
+		} else {
+			pods = append(pods, second)
+		}
+	}
+	c.Pods = pods
+	// node order in the store is arbitrary too
+	if nondet.Bool("node1ListedFirst") {
+		c.Nodes = append(c.Nodes, &corev1.Node{ObjectMeta: metav1.ObjectMeta{Name: "node1"}}, &corev1.Node{ObjectMeta: metav1.ObjectMeta{Name: "node0"}})
+	} else {
+		c.Nodes = append(c.Nodes, &corev1.Node{ObjectMeta: metav1.ObjectMeta{Name: "node0"}}, &corev1.Node{ObjectMeta: metav1.ObjectMeta{Name: "node1"}})
+	}
+	rs := zzRS(ds, "B", "foo-b", nondet.Base().Add(-time.Minute))
+	status := &datadoghqv1alpha1.ExtendedDaemonSetStatusCanary{ReplicaSet: "foo-b"}
+	err := zzReconciler(c).selectNodes(logr.Logger{}, ds, &ds.Spec, rs, status)
+	nondet.Assert("C15.totals.noerror", err == nil && len(status.Nodes) == 1)
+	if err != nil || len(status.Nodes) != 1 {
+		return
+	}
+	if total0 < b {
+		nondet.Assert("C15.totals.least-restarts-node0", status.Nodes[0] == "node0")
+	}
+	if b < total0 {
+		nondet.Assert("C15.totals.least-restarts-node1", status.Nodes[0] == "node1")
+	}
+	nondet.Observe("selected", status.Nodes[0])
+	nondet.Reach("C15.totals.sum-decides", total0 > b && a < b && a2 < b)
+}
